@@ -103,37 +103,50 @@ if os.path.exists(mr):
     rowsm = R["suite_survivors"]
     killed = [r for r in rowsm if r["verdict"].startswith("killed")]
     kin = sum(1 for r in killed if "no-failing-input-found" not in r["verdict"])
+    first_killed = [r for r in rowsm if r["first_verdict"].startswith("killed")]
     surv = [r for r in rowsm if not r["verdict"].startswith("killed")]
-    unreached = [r for r in surv if r["verdict"].startswith("unreached")]
-    eq = [r for r in surv if r["triage"].lower().startswith(("equivalent", "unreached", "outside", "default"))]
+    gaps = [r for r in rowsm if r["triage"].startswith("GAP")]
+    cls = lambda r: r["triage"].split(":")[0].split(" ")[0].lower().rstrip(",") if r["triage"] else "untriaged"
+    from collections import Counter
+    cc = Counter(cls(r) for r in surv)
     s += '''
 ### Mutation campaign (automatic first-order mutants; `tools/mutants.py`, `tools/mutcampaign.py`, `tools/covermap.py`)
 
 A complement to the agent-written changes: every single-token mutant of netaddr's non-test source (comparison boundary/negation,
-`+`/`-`, shifts, `&`/`|`/`^`, integer constants ±1, `True`/`False`, `and`/`or`, dropped `not`, negated `if`/`while` condition,
-statement replaced by `pass`, `break`/`continue`; nothing inside `raise`/`assert`) was generated as a text edit: **%d mutants**.
-Stage 1 ran the pinned suite on each (scratch copies): %d are killed by the suite, **%d survive it** — these are the "changes that
-still pass the tests".  Stage 2 ran, for each survivor, the quick checks whose implementation side reaches the mutated line
-(line coverage of every check measured by `tools/covermap.py`: %s), most specific first, at most five, in scratch copies of /verif;
-a mutant counts as noticed at the first `VIOLATION`.  **%d of the %d survivors are reported as violations (%d with a concrete
-failing input, %d as `no-failing-input-found` — a broken source-tie obligation on a behaviour-preserving edit), %d are not.**
-Every one of the %d not reported was read by hand (`tools/mutation_triage.json`): %d are behaviour-preserving or outside every
-property (dead Python-2 branches, defaults never used, early exits of sorted scans, values of dicts used as sets, reflected
-comparisons, type guards), %d sit on lines no check reaches (listed by `tools/uncovered.py`: `__oct__`/`__long__`, the
-NotImplemented arms of comparisons with foreign types, Python-2 fallbacks, registry-building code of `ieee.py`); the rest are listed
-below with what was done.  The coverage measurement itself led to additions (OUI/IAB text form, pickling and `EUI.info` in C19,
-EUI compared with its text/int form in C08, equality with foreign objects in C12, constructor defaults in C01/C03).
+`+`/`-`, shifts, `&`/`|`/`^`, `*`/`//`/`%%`, integer constants ±1, `True`/`False`, `and`/`or`, dropped `not`, negated `if`/`while`
+condition, statement replaced by `pass`, `break`/`continue`; nothing inside `raise`/`assert`) was generated as a text edit:
+**%d mutants**.  Stage 1 ran the pinned suite on each (scratch copies under /tmp): %d are killed by the suite, **%d survive it** —
+those are the "changes that still pass the tests".  Stage 2 ran, for each survivor, the quick checks whose implementation side
+reaches the mutated line (line coverage of every check, `tools/covermap.py` → `tools/covermap.json`; %s), most specific first, at
+most five, in scratch copies of /verif with `NV_REPO` pointing at the mutated copy; a mutant counts as noticed at the first
+`VIOLATION` line.  **First pass: %d of the %d survivors reported.**  Every one of the others was read by hand
+(`tools/mutation_triage.json`, one line per mutant): they are behaviour-preserving (dead Python-2 branches, defaults never used,
+early exits of sorted scans, values of dicts used as sets, comparisons Python reflects, `|` vs `^` on disjoint bits, guards that a
+later test repeats, ...), or outside every property (exception class for a non-string argument, address-family constants, an unclosed
+file handle), or on lines no check reaches (`tools/uncovered.py`) — **except %d, which were genuine gaps of the generators** and were
+closed: nmap CIDR targets with a prefix below 20 (never generated because they cannot be enumerated → model function `cidr_probe`,
+theorem `C17_nmap_cidr_probe`, command `nmap_cidr_probe`), the `flags` defaults of `valid_ipv4`/`str_to_int`/`IPAddress`/`IPNetwork`
+and the `dialect=None` defaults of the EUI strategy functions (adapters always passed them explicitly → default-valued arguments are
+now left out), and comparison of an EUI with the text/integer form of another.  Those mutants were re-run and are reported.
+**Final: %d of %d reported (%d with a concrete failing input, %d as `no-failing-input-found`, i.e. a source-tie obligation broken
+by a behaviour-preserving edit); %d not reported: %s.**  Reported by: %s.  The coverage measurement itself also led to additions where
+no mutant asked for them (OUI/IAB text form, pickling and `EUI.info` in C19, equality with foreign objects in C12).
+The campaign is a support experiment (it samples one kind of change), not part of any verdict; its scratch data lived under /tmp/mut,
+the committed record is `tools/mutation_report.json`.
 
-| mutant | where | edit | verdict | triage |
-|---|---|---|---|---|
+| not-reported mutants by triage class | count |
+|---|---|
 ''' % (sm["mutants"], sm["killed_by_pinned_suite"], sm["survived_suite"], sm.get("coverage", "see tools/uncovered.py"),
-       len(killed), len(rowsm), kin, len(killed) - kin, len(surv), len(surv), len(eq), len(unreached))
-    for r in surv:
-        if r in eq:
-            continue
-        s += "| `%s` | %s:%d `%s` | `%s` → `%s` | %s | %s |\n" % (r["id"], r["file"].replace("netaddr/", ""), r["line"], r["func"],
+       len(first_killed), len(rowsm), len(gaps), len(killed), len(rowsm), kin, len(killed) - kin, len(surv),
+       ", ".join("%d %s" % (n, k) for k, n in cc.most_common()),
+       ", ".join("%s %d" % (k, n) for k, n in sorted(sm.get("killed_by", {}).items())))
+    for k, n in cc.most_common():
+        s += "| %s | %d |\n" % (k, n)
+    s += "\n| gap found by the campaign | where | edit | what was added |\n|---|---|---|---|\n"
+    for r in gaps:
+        s += "| `%s` | %s:%d `%s` | `%s` → `%s` | %s |\n" % (r["id"], r["file"].replace("netaddr/", ""), r["line"], r["func"],
                   r["old"][:40].replace("|", "/").replace("\n", " "), r["new"][:40].replace("|", "/").replace("\n", " "),
-                  r["verdict"][:40], r["triage"] or "NOT TRIAGED")
+                  r["triage"][14:].replace("|", "/"))
 
 # ---- §14 status per property
 kf = json.load(open(os.path.join(V, "known_findings.json")))["findings"]
